@@ -50,11 +50,17 @@ type world struct {
 	gapMs int64
 	now   int64
 	ctx   context.Context
+	// local-allocator mode: the members' allocators are LocalTSOAllocators of one dc-location with this
+	// suffix, and the manager's max suffix yields `bits` suffix bits (bits = 0: the global allocator)
+	bits, suffix int
 }
+
+const localDC = "dc-verif"
 
 const maxMembers = 4
 
-func (w *world) reset(siNs, gapMs int64) {
+func (w *world) reset(siNs, gapMs int64, bits, suffix int) {
+	w.bits, w.suffix = bits, suffix
 	for _, m := range w.mems {
 		if m.pending != nil {
 			m.gate.Release(etcdh.ErrBefore)
@@ -80,17 +86,31 @@ func (w *world) reset(siNs, gapMs int64) {
 		cfg.TSOUpdatePhysicalInterval = typeutil.NewDuration(50 * time.Millisecond)
 		gap := time.Duration(gapMs) * time.Millisecond
 		am := tso.NewAllocatorManager(&member.Member{}, w.root, cfg, func() time.Duration { return gap })
-		am.SetUpAllocator(w.ctx, tso.GlobalDCLocation, ls)
-		a, err := am.GetAllocator(tso.GlobalDCLocation)
-		if err != nil {
-			panic(err)
+		var a tso.Allocator
+		if bits == 0 {
+			am.SetUpAllocator(w.ctx, tso.GlobalDCLocation, ls)
+			var err error
+			if a, err = am.GetAllocator(tso.GlobalDCLocation); err != nil {
+				panic(err)
+			}
+		} else {
+			// not through SetUpAllocator: that would start the allocator's own election loop
+			a = tso.NewLocalTSOAllocator(am, ls, localDC)
+			am.VerifSetMaxSuffix(int32(1<<uint(bits) - 1))
+			if am.GetSuffixBits() != bits {
+				panic("suffix bits")
+			}
 		}
 		w.mems[i] = &mem{id: i, client: c, gate: g, ls: ls, am: am, alloc: a}
 	}
 }
 
 func (w *world) stored() int64 {
-	resp, err := w.e.Client.Get(context.Background(), path.Join(w.root, "timestamp"))
+	key := path.Join(w.root, "timestamp")
+	if w.bits != 0 {
+		key = path.Join(w.root, "leader", "timestamp") // a local allocator's root is its leader key
+	}
+	resp, err := w.e.Client.Get(context.Background(), key)
 	if err != nil {
 		panic(err)
 	}
@@ -146,6 +166,17 @@ func fault(s string) etcdh.Fault {
 
 // windowCall runs one of the three window writers the way its production caller does
 // (UpdateTSO / Initialize errors make the caller reset the allocator group).
+// resetGroup is AllocatorManager.ResetAllocatorGroup (the local allocator of this harness is not registered
+// in the manager, so the two resets are done here, in the same order)
+func (w *world) resetGroup(m *mem) {
+	if w.bits == 0 {
+		m.am.ResetAllocatorGroup(tso.GlobalDCLocation)
+		return
+	}
+	m.alloc.Reset()
+	m.ls.Reset()
+}
+
 func (w *world) windowCall(m *mem, f []string) string {
 	switch f[0] {
 	case "update", "gupdate":
@@ -156,13 +187,13 @@ func (w *world) windowCall(m *mem, f []string) string {
 		}
 		err := m.alloc.UpdateTSO()
 		if err != nil {
-			m.am.ResetAllocatorGroup(tso.GlobalDCLocation)
+			w.resetGroup(m)
 		}
 		return errStr(err)
 	case "sync", "gsync":
-		err := m.alloc.Initialize(0)
+		err := m.alloc.Initialize(w.suffix)
 		if err != nil {
-			m.am.ResetAllocatorGroup(tso.GlobalDCLocation)
+			w.resetGroup(m)
 		}
 		return errStr(err)
 	case "setts":
@@ -180,7 +211,11 @@ func (w *world) exec(op string) (string, int) {
 		return "bad-op", 0
 	}
 	if f[0] == "reset" && len(f) == 3 {
-		w.reset(atoi(f[1]), atoi(f[2]))
+		w.reset(atoi(f[1]), atoi(f[2]), 0, 0)
+		return "ok", 0
+	}
+	if f[0] == "reset" && len(f) == 5 && atoi(f[3]) >= 1 && atoi(f[3]) <= 8 {
+		w.reset(atoi(f[1]), atoi(f[2]), int(atoi(f[3])), int(atoi(f[4])))
 		return "ok", 0
 	}
 	if f[0] == "resign" {
@@ -268,7 +303,8 @@ func (w *world) exec(op string) (string, int) {
 						continue
 					}
 					mu.Lock()
-					res = append(res, fmt.Sprintf("%d:%d:%d:%d:%d", ts.Physical, ts.Logical-int64(cnt), ts.Logical, st, fi))
+					raw := ts.Logical >> uint(w.bits)
+					res = append(res, fmt.Sprintf("%d:%d:%d:%d:%d", ts.Physical, raw-int64(cnt), raw, st, fi))
 					mu.Unlock()
 				}
 			}()
@@ -387,7 +423,13 @@ const baseNs = int64(1700000000000000000)
 func gen(w *world, t *trace.W, r *rng.R, maxOps int) {
 	si := []int64{3000000000, 3000000000, 1000000000, 2000000, 50000000}[r.Intn(5)]
 	gap := []int64{86400000, 86400000, 3600000}[r.Intn(3)]
-	w.run(t, fmt.Sprintf("reset %d %d", si, gap))
+	if r.Bool(1, 3) {
+		// a local allocator: 1..4 suffix bits, any non-zero suffix that fits
+		bits := r.Range(1, 4)
+		w.run(t, fmt.Sprintf("reset %d %d %d %d", si, gap, bits, r.Range(1, 1<<uint(bits)-1)))
+	} else {
+		w.run(t, fmt.Sprintf("reset %d %d", si, gap))
+	}
 	k := r.Range(1, 3)
 	skew := map[int]int64{}
 	for i := 1; i <= k; i++ {
@@ -546,7 +588,7 @@ func main() {
 		for _, op := range trace.ReadOps(*replay) {
 			w.run(t, op)
 		}
-		w.reset(3000000000, 86400000)
+		w.reset(3000000000, 86400000, 0, 0)
 		return
 	}
 	r := rng.FromEnv(*stream)
@@ -565,5 +607,5 @@ func main() {
 	for s := 0; s < *n; s++ {
 		gen(w, t, r, *maxOps)
 	}
-	w.reset(3000000000, 86400000)
+	w.reset(3000000000, 86400000, 0, 0)
 }
